@@ -3,11 +3,13 @@ package main
 import (
 	"fmt"
 	"sort"
+	"strconv"
 	"strings"
 	"sync"
 	"sync/atomic"
 	"testing"
 	"testing/synctest"
+	"time"
 
 	"k8s.io/apimachinery/pkg/types"
 
@@ -28,11 +30,14 @@ type disc struct {
 	unsafeK []string
 	// a fetched collection changed since the last barrier and the transformation fetches (Lean: secDirty)
 	secDirty bool
+	// the fetched collection is (derived from) the primary collection itself: modes sp / ss
+	primIsSec bool
 }
 
 // noteOp: bookkeeping by the name of the op (Lean: the first line of stepD).
 func (d *disc) noteOp(op string) {
-	if d.started && len(d.T.Fetches) > 0 && (strings.HasPrefix(op, "s.") || strings.HasPrefix(op, "t.")) {
+	if d.started && len(d.T.Fetches) > 0 && (strings.HasPrefix(op, "s.") || strings.HasPrefix(op, "t.") ||
+		(d.primIsSec && strings.HasPrefix(op, "p."))) {
 		d.secDirty = true
 	}
 }
@@ -139,6 +144,40 @@ func (d *disc) guard() string {
 type subscriber struct {
 	mu  sync.Mutex
 	evs []string
+	// the registration (sync tracker: HasSynced must hold at quiescence; UnregisterHandler), and how many events
+	// had arrived when it was unregistered (-1: still registered)
+	reg    krt.HandlerRegistration
+	frozen int
+	unreg  bool
+}
+
+// unregister removes the handler at a quiescent point and remembers how much it had received.
+func (s *subscriber) unregister() {
+	if s == nil || s.reg == nil || s.unreg {
+		return
+	}
+	synctest.Wait()
+	s.reg.UnregisterHandler()
+	synctest.Wait()
+	s.unreg = true
+	s.frozen = len(s.snapshot())
+}
+
+// health: what the harness itself can say about a subscriber at a quiescent point ("" = fine).
+func (s *subscriber) health() string {
+	if s == nil {
+		return ""
+	}
+	if s.unreg {
+		if n := len(s.snapshot()); n != s.frozen {
+			return fmt.Sprintf("events-after-unregister:%d", n-s.frozen)
+		}
+		return ""
+	}
+	if s.reg != nil && !s.reg.HasSynced() {
+		return "registration-not-synced"
+	}
+	return ""
 }
 
 // evToken renders one delivered event: `A~key~val`, `U~key~old~new`, `D~key~old`; `X~...` for an
@@ -155,6 +194,10 @@ func evToken[T any](e krt.Event[T], val func(T) string) string {
 			return "X~update-shape"
 		}
 		if krt.GetKey(*e.New) != krt.GetKey(*e.Old) {
+			if k := krt.GetKey(*e.Old); k == "" || k == "/" {
+				// a zero-valued Old: an Update of New's key whose Old is not what the subscriber holds
+				return "U~" + krt.GetKey(*e.New) + "~?zero-valued-old?~" + val(*e.New)
+			}
 			return "X~update-key-change"
 		}
 		return "U~" + krt.GetKey(*e.New) + "~" + val(*e.Old) + "~" + val(*e.New)
@@ -219,6 +262,7 @@ type caseRun struct {
 	lateIdx krt.Index[string, Out]
 	lateUn  krt.Index[string, Out]        // the same extractor through krt.UnnamedIndex
 	gate    atomic.Pointer[chan struct{}] // exact stream: holds the queue worker inside the transformation of input `zz`
+	subGate atomic.Pointer[chan struct{}] // while set, the handlers of `gated` subscribers do not return
 	subs    map[string]*subscriber
 	psubs   map[string]*subscriber
 	dsubs   map[string]*subscriber
@@ -254,6 +298,10 @@ func (c *caseRun) fetchOpts(i Obj, f []Atom, src *fetchSrc) []krt.FetchOption {
 			opts = append(opts, krt.FilterIndex(src.val, i.Val))
 		case "outIndex":
 			opts = append(opts, krt.FilterIndex(src.out, outKeyOf(i)))
+		case "nokeys":
+			opts = append(opts, krt.FilterKeys([]string{}...)) // an empty, non-nil set of keys: matches nothing
+		case "nilkeys":
+			opts = append(opts, krt.FilterKeys()) // no arguments = a nil set = no key filter at all (krt's reading)
 		case "keys":
 			opts = append(opts, krt.FilterKeys(i.Ref, i.NS+"/x"))
 		case "objName":
@@ -371,6 +419,26 @@ func (c *caseRun) start() {
 	case "s2":
 		c.srcA = newFetchSrc(c.sec)
 		c.srcB = newFetchSrc(c.sec2)
+	case "sm", "sn":
+		// a NewCollection that fetches a merge join / a nested merge join of sec and sec2 (order independent merge)
+		var mj krt.Collection[Obj]
+		if c.secmode == "sm" {
+			mj = krt.JoinWithMergeCollection([]krt.Collection[Obj]{c.sec, c.sec2}, mergeSorted, krt.WithStop(c.stop), krt.WithName("secM"))
+		} else {
+			outer := krt.NewStaticCollection[krt.Collection[Obj]](nil, []krt.Collection[Obj]{c.sec, c.sec2}, krt.WithStop(c.stop), krt.WithName("secOuter"))
+			mj = krt.NestedJoinWithMergeCollection[Obj](outer, mergeSorted, krt.WithStop(c.stop), krt.WithName("secN"))
+		}
+		for i := 0; i < 4; i++ { // the merge joins wait for their registrations in a sleep-and-poll loop: move the fake clock
+			time.Sleep(200 * time.Millisecond)
+			synctest.Wait()
+		}
+		c.srcA = newFetchSrc(mj)
+	case "sp":
+		// a diamond: the fetched collection is derived from the transformation's own primary collection
+		c.srcA = newFetchSrc(krt.NewCollection[Obj, Obj](c.prim, func(ctx krt.HandlerContext, o Obj) *Obj { return &o },
+			krt.WithStop(c.stop), krt.WithName("primCopy")))
+	case "ss":
+		c.srcA = newFetchSrc(c.prim) // the transformation fetches from its own primary collection
 	default:
 		c.srcA = newFetchSrc(c.sec)
 	}
@@ -630,12 +698,35 @@ func (c *caseRun) step(toks []string) (string, string) {
 		c.psubs[toks[1]] = s
 		switch toks[2] {
 		case "single":
-			c.prim.Register(func(e krt.Event[Obj]) { recObj(s)([]krt.Event[Obj]{e}) })
+			s.reg = c.prim.Register(func(e krt.Event[Obj]) { recObj(s)([]krt.Event[Obj]{e}) })
 		case "batch":
-			c.prim.RegisterBatch(recObj(s), true)
+			s.reg = c.prim.RegisterBatch(recObj(s), true)
 		default:
-			c.prim.RegisterBatch(recObj(s), false)
+			s.reg = c.prim.RegisterBatch(recObj(s), false)
 		}
+		return "ok", line
+	case toks[0] == "punsub" && len(toks) == 2:
+		c.barrier()
+		c.psubs[toks[1]].unregister() // UnregisterHandler on a static collection's registration
+		return "ok", line
+	case toks[0] == "burst" && len(toks) == 3:
+		o, ok := parseObj(toks[1])
+		n, err := strconv.Atoi(toks[2])
+		if !ok || err != nil || c.der == nil || c.T.ByVal {
+			return "bad-op", line
+		}
+		// more batches than one ring buffer segment of a handler's queue holds (1024), while gated handlers cannot
+		// take any of them
+		gate := make(chan struct{})
+		c.subGate.Store(&gate)
+		for j := 0; j < n; j++ {
+			o.Val = "b" + strconv.Itoa(j%2)
+			c.d.primSet(o)
+			c.prim.UpdateObject(o)
+		}
+		synctest.Wait()
+		c.subGate.Store(nil)
+		close(gate)
 		return "ok", line
 	case toks[0] == "dsub" && len(toks) == 3:
 		if c.der == nil {
@@ -645,13 +736,13 @@ func (c *caseRun) step(toks []string) (string, string) {
 		c.dsubs[toks[1]] = s
 		switch toks[2] {
 		case "single":
-			c.der.Register(s.record)
+			s.reg = c.der.Register(s.record)
 		case "batch":
-			c.der.RegisterBatch(recOut(s), true)
+			s.reg = c.der.RegisterBatch(recOut(s), true)
 		default:
 			synctest.Wait()
 			c.barrier()
-			c.der.RegisterBatch(recOut(s), false)
+			s.reg = c.der.RegisterBatch(recOut(s), false)
 		}
 		return "ok", line
 	case toks[0] == "start" && len(toks) == 1:
@@ -669,9 +760,18 @@ func (c *caseRun) step(toks []string) (string, string) {
 		c.subs[toks[1]] = s
 		switch toks[2] {
 		case "single":
-			c.top.Register(s.record)
+			s.reg = c.top.Register(s.record)
 		case "batch":
-			c.top.RegisterBatch(func(es []krt.Event[Out]) {
+			s.reg = c.top.RegisterBatch(func(es []krt.Event[Out]) {
+				for _, e := range es {
+					s.record(e)
+				}
+			}, true)
+		case "gated": // as batch; its handler blocks while a burst is under way
+			s.reg = c.top.RegisterBatch(func(es []krt.Event[Out]) {
+				if g := c.subGate.Load(); g != nil {
+					<-*g
+				}
 				for _, e := range es {
 					s.record(e)
 				}
@@ -679,7 +779,7 @@ func (c *caseRun) step(toks []string) (string, string) {
 		default: // nostate
 			synctest.Wait()
 			c.barrier()
-			c.top.RegisterBatch(func(es []krt.Event[Out]) {
+			s.reg = c.top.RegisterBatch(func(es []krt.Event[Out]) {
 				for _, e := range es {
 					s.record(e)
 				}
@@ -701,6 +801,9 @@ func (c *caseRun) step(toks []string) (string, string) {
 		body := func() string {
 			if s == nil {
 				return "unknown-subscriber"
+			}
+			if h := s.health(); h != "" {
+				return h
 			}
 			return "accept"
 		}
@@ -840,11 +943,12 @@ func (c *caseRun) setFlags(flags []string) {
 		c.single1 = true
 		c.d.prim[singletonInput.ResourceName()] = singletonInput
 	}
-	for _, m := range []string{"sd", "sj", "s2"} {
+	for _, m := range []string{"sd", "sj", "s2", "sm", "sn", "sp", "ss"} {
 		if contains(flags, m) && c.secmode == "" {
 			c.secmode = m
 		}
 	}
+	c.d.primIsSec = c.secmode == "sp" || c.secmode == "ss"
 }
 
 // newRunner builds the program named by the case header (nil: malformed header).
@@ -856,7 +960,7 @@ func newRunner(head []string) runner {
 		return newMiscRun()
 	}
 	if len(head) >= 3 && head[0] == "case" && strings.HasPrefix(head[2], "inf") {
-		return newInfRun()
+		return newInfRun(head[3:]...)
 	}
 	if len(head) >= 3 && head[0] == "case" && strings.HasPrefix(head[2], "idxc") {
 		return newIdxcRun()
